@@ -7,12 +7,14 @@ namespace SaphyrModel.C05T
 open SaphyrModel SaphyrModel.Sc SaphyrModel.C10 SaphyrModel.C05 SaphyrModel.C14L
 
 /-- where the scanner stands: string input, remaining text, line, column, parent indentation -/
-structure At (u : Sc) (it : Str) (line col : Nat) (ind : Int) : Prop where
+structure At (u : Sc) (it : Str) (line col : Nat) (ind : Int) (N : Nat) : Prop where
   kind : u.inp.kind = .str
   iter : u.inp.iter = it
   line : u.mark.line = line
   col : u.mark.col = col
   indent : u.indent = ind
+  /-- the index counts the characters consumed: index + what remains = the length of the whole text -/
+  off : u.mark.index + it.length = N
 
 /-- `m` started in `u` either stops at a panic site (on a string input: only `fuel`) or returns `a` in a
     state satisfying `P` -/
@@ -43,21 +45,21 @@ theorem Ev.getS (u : Sc) {P : Sc → Prop} (hp : P u) : Ev (getS : S Sc) u u P :
 
 -- primitives on a string input ---------------------------------------------------------------------------
 
-theorem ev_getS {u : Sc} {it : Str} {L C : Nat} {I : Int} (h : At u it L C I) :
-    Ev (getS : S Sc) u u (fun u' => At u' it L C I) := Ev.ok rfl h
+theorem ev_getS {u : Sc} {it : Str} {L C : Nat} {I : Int} {N : Nat} (h : At u it L C I N) :
+    Ev (getS : S Sc) u u (fun u' => At u' it L C I N) := Ev.ok rfl h
 
-theorem ev_lookCh {u : Sc} {it : Str} {L C : Nat} {I : Int} (h : At u it L C I) :
-    Ev lookCh u (it.headD '\x00') (fun u' => At u' it L C I) := by
+theorem ev_lookCh {u : Sc} {it : Str} {L C : Nat} {I : Int} {N : Nat} (h : At u it L C I N) :
+    Ev lookCh u (it.headD '\x00') (fun u' => At u' it L C I N) := by
   apply Ev.ok (u' := { u with inp := { u.inp with la := max u.inp.la 1 } })
   · simp [Sc.lookCh, Sc.liftI, In.lookCh, In.lookahead, In.peek, h.kind, Bind.bind, h.iter]
-  · exact ⟨h.kind, h.iter, h.line, h.col, h.indent⟩
+  · exact ⟨h.kind, h.iter, h.line, h.col, h.indent, h.off⟩
 
-theorem ev_lookahead (n : Nat) {u : Sc} {it : Str} {L C : Nat} {I : Int} (h : At u it L C I) :
-    Ev (Sc.lookahead n) u () (fun u' => At u' it L C I) :=
-  Ev.ok (lookahead_str_eval n u h.kind) ⟨h.kind, h.iter, h.line, h.col, h.indent⟩
+theorem ev_lookahead (n : Nat) {u : Sc} {it : Str} {L C : Nat} {I : Int} {N : Nat} (h : At u it L C I N) :
+    Ev (Sc.lookahead n) u () (fun u' => At u' it L C I N) :=
+  Ev.ok (lookahead_str_eval n u h.kind) ⟨h.kind, h.iter, h.line, h.col, h.indent, h.off⟩
 
-theorem ev_peek {u : Sc} {it : Str} {L C : Nat} {I : Int} (h : At u it L C I) :
-    Ev Sc.peek u (it.headD '\x00') (fun u' => At u' it L C I) := by
+theorem ev_peek {u : Sc} {it : Str} {L C : Nat} {I : Int} {N : Nat} (h : At u it L C I N) :
+    Ev Sc.peek u (it.headD '\x00') (fun u' => At u' it L C I N) := by
   refine Ev.ok (u' := u) ?_ h
   rw [peek_str_eval u h.kind, h.iter]
 
@@ -66,43 +68,49 @@ def ans (q : Char → Bool) (e : Bool) : Str → Bool
   | [] => e
   | c :: _ => q c
 
-theorem ev_nextIs (q : Char → Bool) (e : Bool) {u : Sc} {it : Str} {L C : Nat} {I : Int} (h : At u it L C I) :
-    Ev (Sc.liftI (In.nextIs q e)) u (ans q e it) (fun u' => At u' it L C I) := by
+theorem ev_nextIs (q : Char → Bool) (e : Bool) {u : Sc} {it : Str} {L C : Nat} {I : Int} {N : Nat} (h : At u it L C I N) :
+    Ev (Sc.liftI (In.nextIs q e)) u (ans q e it) (fun u' => At u' it L C I N) := by
   refine Ev.ok (u' := u) ?_ h
   rw [nextIs_str_eval q e u h.kind, h.iter]
   cases it <;> rfl
 
-theorem ev_skipBlank {u : Sc} {c : Char} {it : Str} {L C : Nat} {I : Int} (h : At u (c :: it) L C I) :
-    Ev skipBlank u () (fun u' => At u' it L (C + 1) I) := by
-  refine Ev.ok (skipBlank_str_eval u h.kind) ⟨h.kind, ?_, h.line, ?_, h.indent⟩
+theorem ev_skipBlank {u : Sc} {c : Char} {it : Str} {L C : Nat} {I : Int} {N : Nat} (h : At u (c :: it) L C I N) :
+    Ev skipBlank u () (fun u' => At u' it L (C + 1) I N) := by
+  refine Ev.ok (skipBlank_str_eval u h.kind) ⟨h.kind, ?_, h.line, ?_, h.indent, ?_⟩
   · show u.inp.iter.tail = it
     rw [h.iter]; rfl
   · show u.mark.col + 1 = C + 1
     rw [h.col]
+  · show u.mark.index + 1 + it.length = N
+    have := h.off; simp only [List.length_cons] at this; omega
 
-theorem ev_skipNonBlank {u : Sc} {c : Char} {it : Str} {L C : Nat} {I : Int} (h : At u (c :: it) L C I) :
-    Ev skipNonBlank u () (fun u' => At u' it L (C + 1) I) := by
+theorem ev_skipNonBlank {u : Sc} {c : Char} {it : Str} {L C : Nat} {I : Int} {N : Nat} (h : At u (c :: it) L C I N) :
+    Ev skipNonBlank u () (fun u' => At u' it L (C + 1) I N) := by
   apply Ev.ok (u' := { (advS u 1 { u.inp with iter := it }) with leadingWhitespace := false })
   · simp [skipNonBlank, Sc.liftI, In.skip, h.kind, h.iter, Bind.bind, advance, modS, advS]
-  · exact ⟨h.kind, rfl, h.line, by show u.mark.col + 1 = C + 1; rw [h.col], h.indent⟩
+  · refine ⟨h.kind, rfl, h.line, by show u.mark.col + 1 = C + 1; rw [h.col], h.indent, ?_⟩
+    show u.mark.index + 1 + it.length = N
+    have := h.off; simp only [List.length_cons] at this; omega
 
-theorem ev_readBreak (acc : Str) (b : Brk) {u : Sc} {it : Str} {L C : Nat} {I : Int} (h : At u (b.txt ++ it) L C I)
+theorem ev_readBreak (acc : Str) (b : Brk) {u : Sc} {it : Str} {L C : Nat} {I : Int} {N : Nat} (h : At u (b.txt ++ it) L C I N)
     (hcr : it.headD '\x00' ≠ '\n') :
-    Ev (readBreak acc) u (acc ++ ['\n']) (fun u' => At u' it (L + 1) 0 I) := by
-  refine Ev.ok (readBreak_brk acc u h.kind b it h.iter hcr) ⟨h.kind, rfl, ?_, rfl, h.indent⟩
-  show u.mark.line + 1 = L + 1
-  rw [h.line]
+    Ev (readBreak acc) u (acc ++ ['\n']) (fun u' => At u' it (L + 1) 0 I N) := by
+  refine Ev.ok (readBreak_brk acc u h.kind b it h.iter hcr) ⟨h.kind, rfl, ?_, rfl, h.indent, ?_⟩
+  · show u.mark.line + 1 = L + 1
+    rw [h.line]
+  · show u.mark.index + b.txt.length + it.length = N
+    have := h.off; simp only [List.length_append] at this; omega
 
 -- loops ---------------------------------------------------------------------------------------------------
 
-theorem ev_skipSpaces : ∀ (fuel k : Nat) (u : Sc) (rest : Str) (L C : Nat) (I : Int),
-    At u (List.replicate k ' ' ++ rest) L C I → rest.headD '\x00' ≠ ' ' →
-    Ev (skipSpaces fuel) u () (fun u' => At u' rest L (C + k) I) := by
+theorem ev_skipSpaces : ∀ (fuel k : Nat) (u : Sc) (rest : Str) (L C : Nat) (I : Int) (N : Nat),
+    At u (List.replicate k ' ' ++ rest) L C I N → rest.headD '\x00' ≠ ' ' →
+    Ev (skipSpaces fuel) u () (fun u' => At u' rest L (C + k) I N) := by
   intro fuel
   induction fuel with
-  | zero => intro k u rest L C I _ _; left; exact ⟨_, rfl⟩
+  | zero => intro k u rest L C I N _ _; left; exact ⟨_, rfl⟩
   | succ f ih =>
-    intro k u rest L C I h hr
+    intro k u rest L C I N h hr
     unfold skipSpaces
     apply Ev.bind (ev_lookCh h)
     intro u1 h1
@@ -116,7 +124,7 @@ theorem ev_skipSpaces : ∀ (fuel k : Nat) (u : Sc) (rest : Str) (L C : Nat) (I 
       simp only [List.replicate_succ, List.cons_append, List.headD_cons, beq_self_eq_true, ↓reduceIte] at h1 ⊢
       apply Ev.bind (ev_skipBlank h1)
       intro u2 h2
-      have := ih k u2 rest L (C + 1) I h2 hr
+      have := ih k u2 rest L (C + 1) I N h2 hr
       rw [show C + (k + 1) = C + 1 + k by omega]
       exact this
 
@@ -124,19 +132,19 @@ theorem Ev.pure' {α : Type} {a a' : α} (u : Sc) {P : Sc → Prop} (he : a = a'
   subst he; exact Ev.pure a u hp
 
 /-- indentation auto-detection in front of a first content line indented by `ind` spaces -/
-theorem ev_firstLineIndent (ind : Nat) (hind : ind ≠ 0) (u : Sc) (rest : Str) (L : Nat) (I : Int)
-    (h : At u (List.replicate ind ' ' ++ rest) L 0 I) (hr1 : rest.headD '\x00' ≠ ' ')
+theorem ev_firstLineIndent (ind : Nat) (hind : ind ≠ 0) (u : Sc) (rest : Str) (L : Nat) (I : Int) (N : Nat)
+    (h : At u (List.replicate ind ' ' ++ rest) L 0 I N) (hr1 : rest.headD '\x00' ≠ ' ')
     (hr2 : isBreak (rest.headD '\x00') = false) (hI : (I + 1).toNat ≤ ind) :
-    Ev (skipBlockScalarFirstLineIndent []) u (ind, []) (fun u' => At u' rest L ind I) := by
+    Ev (skipBlockScalarFirstLineIndent []) u (ind, []) (fun u' => At u' rest L ind I N) := by
   unfold skipBlockScalarFirstLineIndent
   apply Ev.bind (ev_getS h)
   intro u0 h0
-  have hgo : Ev (skipBlockScalarFirstLineIndentGo (u.inp.remaining + 2) 0 []) u0 (ind, []) (fun u' => At u' rest L ind I) := by
+  have hgo : Ev (skipBlockScalarFirstLineIndentGo (u.inp.remaining + 2) 0 []) u0 (ind, []) (fun u' => At u' rest L ind I N) := by
     rw [show u.inp.remaining + 2 = (u.inp.remaining + 1) + 1 by omega]
     unfold skipBlockScalarFirstLineIndentGo
     apply Ev.bind (ev_getS h0)
     intro u1 h1
-    apply Ev.bind (ev_skipSpaces _ ind u1 rest L 0 I h1 hr1)
+    apply Ev.bind (ev_skipSpaces _ ind u1 rest L 0 I N h1 hr1)
     intro u2 h2
     apply Ev.bind (ev_getS h2)
     intro u3 h3
@@ -183,29 +191,29 @@ def chomped (ch : Chomping) (content : Str) : Str :=
   match ch with | .strip => content | _ => content ++ ['\n']
 
 /-- where the scanner stands, parent indentation aside -/
-def Pos (u : Sc) (it : Str) (line col : Nat) : Prop :=
-  u.inp.kind = .str ∧ u.inp.iter = it ∧ u.mark.line = line ∧ u.mark.col = col
+def Pos (u : Sc) (it : Str) (line col : Nat) (N : Nat) : Prop :=
+  u.inp.kind = .str ∧ u.inp.iter = it ∧ u.mark.line = line ∧ u.mark.col = col ∧ u.mark.index + it.length = N
 
 /-- from the first content line on: the token of a literal block scalar -/
 theorem ev_blockContent (ch : Chomping) (ind : Nat) (hind : ind ≠ 0) (tail : Str) (ht1 : tail.headD '\x00' ≠ ' ')
     (ht2 : isBreak (tail.headD '\x00') = false) (ls : List (Str × Brk)) (l : Str) (b : Brk)
-    (hl : GoodLine l) (hls : ∀ p ∈ ls, GoodLine p.1) (u : Sc) (L : Nat) (I : Int)
-    (h : At u (l ++ (b.txt ++ restLinesB ind ls tail)) L ind I) :
+    (hl : GoodLine l) (hls : ∀ p ∈ ls, GoodLine p.1) (u : Sc) (L : Nat) (I : Int) (N : Nat)
+    (h : At u (l ++ (b.txt ++ restLinesB ind ls tail)) L ind I N) :
     EvR (blockContent true ch ind [] u) u (fun tok u' =>
-      tok = ⟨⟨u.mark, u'.mark⟩, .scalar .literal (chomped ch (joinB l ls))⟩ ∧ Pos u' tail (L + ls.length + 1) 0) := by
+      tok = ⟨⟨u.mark, u'.mark⟩, .scalar .literal (chomped ch (joinB l ls))⟩ ∧ Pos u' tail (L + ls.length + 1) 0 N) := by
   unfold blockContent
   have hm : blockMarkerCheck ind u = (Pure.pure true : S Bool) := by
     unfold blockMarkerCheck
     simp [h.col]
   rw [hm]
-  apply EvR.bindEv (Ev.pure true u (P := fun u' => At u' (l ++ (b.txt ++ restLinesB ind ls tail)) L ind I) h)
+  apply EvR.bindEv (Ev.pure true u (P := fun u' => At u' (l ++ (b.txt ++ restLinesB ind ls tail)) L ind I N) h)
   intro u1 h1
   simp only [Bool.not_true, Bool.false_eq_true, ↓reduceIte]
   rcases literal_lines_any_break ind hind tail ht1 ht2 ls l b ⟨[], [], [], false⟩ u1 (u.inp.remaining + 2) hl hls
-      h1.kind h1.col h1.iter with ⟨p, hp⟩ | ⟨u2, bl, hok, hk2, hi2, hc2, hl2⟩
+      h1.kind h1.col h1.iter with ⟨p, hp⟩ | ⟨u2, bl, hok, hk2, hi2, hc2, hl2, hx2⟩
   · left; exact ⟨p, bind_panic' hp⟩
   · right
-    refine ⟨_, u2, ?_, rfl, hk2, hi2, ?_, hc2⟩
+    refine ⟨_, u2, ?_, rfl, hk2, hi2, ?_, hc2, ?_⟩
     · rw [bind_ok' hok]
       show (getS >>= fun s2 => blockFinish ch ind _ s2 >>= fun str => Pure.pure _) u2 = _
       rw [bind_ok' (show (getS : S Sc) u2 = .ok (u2, u2) from rfl)]
@@ -213,6 +221,7 @@ theorem ev_blockContent (ch : Chomping) (ind : Nat) (hind : ind ≠ 0) (tail : S
       rw [bind_ok' (literal_chomping ch ind (joinB l ls) bl u2 hk2 hc2)]
       cases ch <;> rfl
     · rw [hl2, h1.line]
+    · rw [hx2, h1.iter]; exact h1.off
 
 theorem EvR.bind {α β : Type} {m : S α} {f : α → S β} {u : Sc} {R : α → Sc → Prop} {Q : β → Sc → Prop}
     (h1 : EvR m u R) (h2 : ∀ a u', R a u' → EvR (f a) u' Q) : EvR (m >>= f) u Q := by
@@ -236,18 +245,20 @@ theorem EvR.getS_bind {β : Type} {f : Sc → S β} {u : Sc} {R : β → Sc → 
 
 /-- what the token of the scalar must be: literal style, the chomped lines, from line `L`, column `ind`
     to column 0 of line `L'` -/
-def IsLit (tok : Token) (text : Str) (L ind L' : Nat) : Prop :=
+def IsLit (tok : Token) (text : Str) (L ind L' : Nat) (startRest stopRest N : Nat) : Prop :=
   tok.ty = .scalar .literal text ∧ tok.span.start.line = L ∧ tok.span.start.col = ind ∧
-  tok.span.stop.line = L' ∧ tok.span.stop.col = 0
+  tok.span.stop.line = L' ∧ tok.span.stop.col = 0 ∧
+  tok.span.start.index + startRest = N ∧ tok.span.stop.index + stopRest = N
 
 /-- after the header line, indentation auto-detected from the first content line -/
 theorem ev_blockAfterHeader (sm : Marker) (ch : Chomping) (cb : Str) (ind : Nat) (hind : ind ≠ 0) (tail : Str)
     (ht1 : tail.headD '\x00' ≠ ' ') (ht2 : isBreak (tail.headD '\x00') = false) (ls : List (Str × Brk)) (l : Str) (b : Brk)
-    (hl : GoodLine l) (hl1 : l.headD '\x00' ≠ ' ') (hls : ∀ p ∈ ls, GoodLine p.1) (u : Sc) (L : Nat) (I : Int)
+    (hl : GoodLine l) (hl1 : l.headD '\x00' ≠ ' ') (hls : ∀ p ∈ ls, GoodLine p.1) (u : Sc) (L : Nat) (I : Int) (N : Nat)
     (hI : (I + 1).toNat ≤ ind)
-    (h : At u (List.replicate ind ' ' ++ (l ++ (b.txt ++ restLinesB ind ls tail))) L 0 I) :
+    (h : At u (List.replicate ind ' ' ++ (l ++ (b.txt ++ restLinesB ind ls tail))) L 0 I N) :
     EvR (blockAfterHeader true sm ch 0 cb) u (fun tok u' =>
-      IsLit tok (chomped ch (joinB l ls)) L ind (L + ls.length + 1) ∧ Pos u' tail (L + ls.length + 1) 0) := by
+      IsLit tok (chomped ch (joinB l ls)) L ind (L + ls.length + 1)
+        (l ++ (b.txt ++ restLinesB ind ls tail)).length tail.length N ∧ Pos u' tail (L + ls.length + 1) 0 N) := by
   obtain ⟨c0, l0, rfl⟩ : ∃ c0 l0, l = c0 :: l0 := by
     cases l with
     | nil => exact absurd rfl hl.1
@@ -264,7 +275,7 @@ theorem ev_blockAfterHeader (sm : Marker) (ch : Chomping) (cb : Str) (ind : Nat)
   have hbi : blockIndent 0 u1 = skipBlockScalarFirstLineIndent [] := by
     unfold blockIndent; simp
   rw [hbi]
-  have hfl := ev_firstLineIndent (n + 1) hind u2 ((c0 :: l0) ++ (b.txt ++ restLinesB (n + 1) ls tail)) L I
+  have hfl := ev_firstLineIndent (n + 1) hind u2 ((c0 :: l0) ++ (b.txt ++ restLinesB (n + 1) ls tail)) L I N
     (by simpa [List.replicate_succ] using h2) (by simpa using hl1) (by simpa using hc0.1) hI
   apply EvR.bindEv hfl
   intro u3 h3
@@ -272,11 +283,11 @@ theorem ev_blockAfterHeader (sm : Marker) (ch : Chomping) (cb : Str) (ind : Nat)
   intro u4 h4
   simp only [List.cons_append, ans, hc0.2, Bool.false_eq_true, ↓reduceIte]
   apply EvR.getS_bind
-  refine EvR.mono (ev_blockContent ch (n + 1) hind tail ht1 ht2 ls (c0 :: l0) b hl hls u4 L I h4) ?_
+  refine EvR.mono (ev_blockContent ch (n + 1) hind tail ht1 ht2 ls (c0 :: l0) b hl hls u4 L I N h4) ?_
   intro tok u' ⟨htok, hpos⟩
   refine ⟨?_, hpos⟩
   subst htok
-  exact ⟨rfl, h4.line, h4.col, hpos.2.2.1, hpos.2.2.2⟩
+  exact ⟨rfl, h4.line, h4.col, hpos.2.2.1, hpos.2.2.2.1, h4.off, hpos.2.2.2.2⟩
 
 -- the header line ---------------------------------------------------------------------------------------------
 
@@ -287,10 +298,10 @@ deriving Repr, DecidableEq
 def Hdr.txt : Hdr → Str | .clip => [] | .strip => ['-'] | .keep => ['+']
 def Hdr.chomp : Hdr → Chomping | .clip => .clip | .strip => .strip | .keep => .keep
 
-theorem ev_blockHeader (sm : Marker) (hd : Hdr) (b0 : Brk) (R : Str) (u : Sc) (L C : Nat) (I : Int)
-    (h : At u (hd.txt ++ (b0.txt ++ R)) L C I) :
+theorem ev_blockHeader (sm : Marker) (hd : Hdr) (b0 : Brk) (R : Str) (u : Sc) (L C : Nat) (I : Int) (N : Nat)
+    (h : At u (hd.txt ++ (b0.txt ++ R)) L C I N) :
     Ev (blockHeader sm ((hd.txt ++ (b0.txt ++ R)).headD '\x00') false) u (hd.chomp, 0)
-      (fun u' => At u' (b0.txt ++ R) L (C + hd.txt.length) I) := by
+      (fun u' => At u' (b0.txt ++ R) L (C + hd.txt.length) I N) := by
   obtain ⟨cb, rb, hbr, hcb1, hcb2⟩ := brk_head b0 R
   have hcbd : isDigit cb = false := by
     cases b0 <;> simp [Brk.txt] at hbr <;> (rw [← hbr.1]; decide)
@@ -329,13 +340,13 @@ theorem ev_blockHeader (sm : Marker) (hd : Hdr) (b0 : Brk) (R : Str) (u : Sc) (L
     simp only [hbr, ans, hcbd, Bool.false_eq_true, ↓reduceIte]
     exact Ev.pure' u3 rfl (by simpa [hbr, Hdr.txt] using h3)
 
-theorem ev_skipWsToEol (b0 : Brk) (R : Str) (u : Sc) (L C : Nat) (I : Int) (h : At u (b0.txt ++ R) L C I) :
-    Ev (Sc.skipWsToEol .yes) u (.result false false) (fun u' => At u' (b0.txt ++ R) L C I) := by
+theorem ev_skipWsToEol (b0 : Brk) (R : Str) (u : Sc) (L C : Nat) (I : Int) (N : Nat) (h : At u (b0.txt ++ R) L C I N) :
+    Ev (Sc.skipWsToEol .yes) u (.result false false) (fun u' => At u' (b0.txt ++ R) L C I N) := by
   apply Ev.ok (u' := { u with inp := { u.inp with iter := b0.txt ++ R }, mark := ⟨u.mark.index + 0, u.mark.line, u.mark.col + 0⟩ })
   · cases b0 <;>
       simp [Sc.skipWsToEol, Sc.liftI, In.skipWsToEol, h.kind, h.iter, Brk.txt, In.strSkipBlanks, Bind.bind, advance, modS,
         Pure.pure, getMark]
-  · exact ⟨h.kind, rfl, h.line, h.col, h.indent⟩
+  · exact ⟨h.kind, rfl, h.line, h.col, h.indent, h.off⟩
 
 /-- **A whole literal block scalar, from just after its `|`.** The header is nothing, `-` or `+`; the header line
     ends with any spelling of a line break; the first content line fixes the indentation `ind ≥ 1` (deeper than
@@ -346,12 +357,13 @@ theorem ev_skipWsToEol (b0 : Brk) (R : Str) (u : Sc) (L C : Nat) (I : Int) (h : 
     line after the last one. -/
 theorem literal_block_token (sm : Marker) (hd : Hdr) (b0 : Brk) (ind : Nat) (hind : ind ≠ 0) (tail : Str)
     (ht1 : tail.headD '\x00' ≠ ' ') (ht2 : isBreak (tail.headD '\x00') = false) (ls : List (Str × Brk)) (l : Str) (b : Brk)
-    (hl : GoodLine l) (hl1 : l.headD '\x00' ≠ ' ') (hls : ∀ p ∈ ls, GoodLine p.1) (u : Sc) (L C : Nat) (I : Int)
+    (hl : GoodLine l) (hl1 : l.headD '\x00' ≠ ' ') (hls : ∀ p ∈ ls, GoodLine p.1) (u : Sc) (L C : Nat) (I : Int) (N : Nat)
     (hI : (I + 1).toNat ≤ ind)
-    (h : At u (hd.txt ++ (b0.txt ++ (List.replicate ind ' ' ++ (l ++ (b.txt ++ restLinesB ind ls tail))))) L C I) :
+    (h : At u (hd.txt ++ (b0.txt ++ (List.replicate ind ' ' ++ (l ++ (b.txt ++ restLinesB ind ls tail))))) L C I N) :
     EvR (scanBlockScalarBody true sm) u (fun tok u' =>
-      IsLit tok (chomped hd.chomp (joinB l ls)) (L + 1) ind (L + 1 + ls.length + 1) ∧
-      Pos u' tail (L + 1 + ls.length + 1) 0) := by
+      IsLit tok (chomped hd.chomp (joinB l ls)) (L + 1) ind (L + 1 + ls.length + 1)
+        (l ++ (b.txt ++ restLinesB ind ls tail)).length tail.length N ∧
+      Pos u' tail (L + 1 + ls.length + 1) 0 N) := by
   generalize hR : List.replicate ind ' ' ++ (l ++ (b.txt ++ restLinesB ind ls tail)) = R at h
   have hRh : R.headD '\x00' ≠ '\n' := by
     rw [← hR]
@@ -368,10 +380,10 @@ theorem literal_block_token (sm : Marker) (hd : Hdr) (b0 : Brk) (ind : Nat) (hin
   have hdig : ans isDigit false (hd.txt ++ (b0.txt ++ R)) = false := by
     cases hd <;> simp [Hdr.txt, ans, hbr, hcbd] <;> decide
   rw [hdig]
-  apply EvR.bindEv (ev_blockHeader sm hd b0 R u2 L C I h2)
+  apply EvR.bindEv (ev_blockHeader sm hd b0 R u2 L C I N h2)
   intro u3 h3
   show EvR (Sc.skipWsToEol .yes >>= _) u3 _
-  apply EvR.bindEv (ev_skipWsToEol b0 R u3 L _ I h3)
+  apply EvR.bindEv (ev_skipWsToEol b0 R u3 L _ I N h3)
   intro u4 h4
   apply EvR.bindEv (ev_lookahead 1 h4)
   intro u5 h5
@@ -380,7 +392,7 @@ theorem literal_block_token (sm : Marker) (hd : Hdr) (b0 : Brk) (ind : Nat) (hin
   have hbz : ans isBreakz true (b0.txt ++ R) = true := by
     rw [hbr]; simp [ans, isBreakz, hcb1]
   simp only [hbz, Bool.not_true, Bool.false_eq_true, ↓reduceIte]
-  have hcbk : Ev blockChompingBreak u6 ['\n'] (fun u' => At u' R (L + 1) 0 I) := by
+  have hcbk : Ev blockChompingBreak u6 ['\n'] (fun u' => At u' R (L + 1) 0 I N) := by
     unfold blockChompingBreak
     apply Ev.bind (ev_nextIs isBreak false h6)
     intro u7 h7
@@ -392,6 +404,6 @@ theorem literal_block_token (sm : Marker) (hd : Hdr) (b0 : Brk) (ind : Nat) (hin
   apply EvR.bindEv hcbk
   intro u9 h9
   rw [← hR] at h9
-  exact ev_blockAfterHeader sm hd.chomp ['\n'] ind hind tail ht1 ht2 ls l b hl hl1 hls u9 (L + 1) I hI h9
+  exact ev_blockAfterHeader sm hd.chomp ['\n'] ind hind tail ht1 ht2 ls l b hl hl1 hls u9 (L + 1) I N hI h9
 
 end SaphyrModel.C05T
